@@ -39,6 +39,29 @@ CHECKS = {
         technique='bounded runtime contracts (query-by-query comparison with a fresh tree, cache pre-population); '
                   'not a proof',
         ref='DESIGN.md section 4 C02'),
+    'C05': dict(
+        category='exploration',
+        text='Bounded: every corpus program (thorough: + standard-library modules) built with FST(src) keeps its '
+             'source and equals ast.parse (own comparator incl. positions); expression / statement / pattern / arg / '
+             'keyword / handler fragments cut out with ast.get_source_segment and parsed in the matching mode equal the '
+             'sub-tree of the enclosing parse with positions rebased; a table of texts invalid for each mode must be '
+             'rejected or be valid in the mode\'s natural embedding. The structural wrapper-offset obligations of '
+             'DESIGN C05/P are not registered in this revision.',
+        note='Bounded runtime contracts; oracle: CPython ast.parse of the enclosing construct. Nothing proved.',
+        technique='bounded runtime contracts on FST()/parse modes with CPython as oracle; not a proof',
+        ref='DESIGN.md section 4 C05'),
+    'C06': dict(
+        category='exploration',
+        text='Bounded: for every node of every program in scope .loc equals the CPython extent converted to '
+             'character columns, byte accessors equal the AST\'s, computed locations start/end on token boundaries '
+             '(tokenize), operator locations cover exactly the operator text, pars() text is n balanced parentheses '
+             'around a balanced expression, children lie inside parents, siblings are ordered and disjoint, and '
+             'find_in_loc / find_contains_loc agree with a brute-force scan over sampled token-boundary rectangles. '
+             'Known findings F-C06-1/2 (decorators, debug f-strings).',
+        note='Bounded runtime contracts; oracles: ast positions, tokenize, brute-force scan. Nothing proved; the '
+             'bistr c2b/b2c contracts of DESIGN C06/P are not registered in this revision.',
+        technique='bounded runtime contracts on location queries with tokenize / CPython positions as oracle',
+        ref='DESIGN.md section 4 C06'),
     'C07': dict(
         category='exploration',
         text='Bounded only: copy()/get_slice() of every node and of sampled windows of every list field leave '
@@ -71,6 +94,17 @@ CHECKS = {
         technique='contract-based deductive verification of the registry protocol (symbolic heap, z3) + bounded '
                   'failure-atomicity contracts on the public API',
         ref='DESIGN.md section 4 C12'),
+    'C14': dict(
+        category='exploration',
+        text='Bounded: walk(all=True) yields exactly the reachable nodes once, parents first, positioned siblings in '
+             'CPython position order; back / on=leave / on=both / self_ / recurse / type filters agree with the '
+             'reference derived from that order; first_child/next and last_child/prev chains, next_child/prev_child, '
+             'repeated step_fwd/step_back reproduce it; prev(next(x)) is x; child_from_path(child_path(x)) is x; on '
+             'every node (navigation: sampled nodes) of the corpus and, in the thorough tier, standard-library '
+             'modules. The symbolic proof of the generated NEXT/PREV functions is not registered in this revision.',
+        note='Bounded runtime contracts; oracle: CPython positions and ast.walk. Nothing proved.',
+        technique='bounded runtime contracts on traversal APIs against an independent reference order',
+        ref='DESIGN.md section 4 C14'),
     'C20': dict(
         category='proof',
         text='Proof of the option store algebra for ALL option mappings (abstract keys/values, z3 arrays): '
